@@ -1,5 +1,4 @@
 CONSTANTS
-  LineCache <- EmptyCache
   Impl = "asis"
   Clocks <- ClocksFull
   Chans <- ChansFull
